@@ -5,7 +5,7 @@ From Coq Require Import List Arith NArith Ascii String Bool.
 From PV Require Import Base.Bytes Base.Sexp AVM.Syntax AVM.Machine AVM.Parse Src.Expr Src.Denote
   Comp.Blocks Comp.Lower Comp.Passes Comp.GraphSem Comp.Assemble Comp.Compile Comp.Annotate Extract.WireExpr
   Proofs.LowerFrame Proofs.LowerLemmas Proofs.LowerCorrect
-  Proofs.C18Text Proofs.C18Fuel Proofs.C18Sem Proofs.C18Stream.
+  Proofs.C18Text Proofs.C18Fuel Proofs.C18Sem Proofs.C18Commute Proofs.C18Stream.
 Import ListNotations.
 Local Open Scope string_scope.
 
@@ -192,3 +192,36 @@ Proof.
   split; [exact wC_related|]. split; [exact wC_streams_differ|]. split; [exact wC_main_related|]. exact wC_main_outputs.
 Qed.
 Print Assumptions C18_annotation_trailing_comment_refuted.
+
+(* (P) what IS invariant: on a routine's block graph g (as produced by lowering + addIncoming), deleting every comment
+   op BEFORE NormalizeBlocks, sortBlocks and flattenBlocks yields exactly the comment-stripped components, whenever
+   NormalizeBlocks' second pass never visits a block made of comment ops only ([normalize_clean], executable).
+   PARTIAL — not covered: (i) the step from "the annotated graph with its comment ops deleted" to "the graph of the
+   un-annotated program" (they differ by empty blocks: Seq start blocks and emptied comment blocks; needs the
+   empty-block elision theory of NormalizeBlocks), (ii) the slot optimiser (comment ops between store and load matter:
+   C18_annotation_stream_optimizer_refuted), (iii) slot assignment, spilling, subroutine flattening (they do not look
+   at comment ops; tied by the correspondence only).  The side condition fails on witness (A). *)
+Theorem C18_annotation_stream_invariant_partial :
+  forall g start end_,
+    normalize_clean g start = true ->
+    routine_code (strip_graph g) start end_ = option_map strip_comps (routine_code g start end_).
+Proof. exact routine_code_strip_commute. Qed.
+Print Assumptions C18_annotation_stream_invariant_partial.
+
+(* its ingredients hold unconditionally for sortBlocks and flattenBlocks *)
+Theorem C18_sort_flatten_ignore_comments :
+  forall g g' start end_ order, srel g g' ->
+    sort_blocks g' start end_ = sort_blocks g start end_ /\
+    flatten_blocks g' order = option_map strip_comps (flatten_blocks g order).
+Proof. intros g g' start end_ order R. split; [apply sort_blocks_srel; exact R|apply flatten_blocks_srel; exact R]. Qed.
+Print Assumptions C18_sort_flatten_ignore_comments.
+
+(* non-vacuity: a program with Comment wrappers, a commented branch and a commented loop body satisfies the side
+   condition and compiles to at least 12 components; witness (A) does not satisfy it *)
+Example C18_partial_nonvacuous :
+  (let '(g, s, en) := lowered ex_clean_prog in
+   normalize_clean g s = true /\
+   routine_code (strip_graph g) s en = option_map strip_comps (routine_code g s en) /\
+   option_map (fun l => Nat.leb 12 (List.length l)) (routine_code g s en) = Some true) /\
+  (let '(g, s, _) := lowered (p_main wA_annot) in normalize_clean g s = false).
+Proof. split; [exact ex_clean|exact wA_side_condition_fails]. Qed.
